@@ -3,6 +3,7 @@ package scen
 import (
 	"context"
 	"fmt"
+	"strings"
 	"sync"
 	"time"
 
@@ -16,13 +17,24 @@ import (
 
 type c07p struct {
 	rows   int    // MaxBufferedRows (0 = large)
-	second string // what the second caller does: "B+Flush" | "Flush" | "B" | "E+Flush" (E = empty batch)
+	second string // what the second caller does: "B+Flush" | "Flush" | "B" | "E+Flush" (E = empty batch) | "" (nothing)
 	gate   string // store call held until a releaser task opens it: "" | "CreateFile" | "Update" | "Close"
 	ib     int
+	// first is the first caller's script (default "A"): space-separated operations, a capital
+	// letter other than E/F ingests a one-row batch of that name, E an empty batch, F calls Flush.
+	first string
+	// tokens > 0: the gate admits one held call per token (the releaser hands them out one
+	// by one, each hand-over a scheduling point) and opens for good after the last one;
+	// tokens == 0: the releaser opens the gate once.
+	tokens int
 }
 
 func (p c07p) name() string {
-	return fmt.Sprintf("rows%d-%s-gate_%s-ib%d", p.rows, p.second, p.gate, p.ib)
+	n := fmt.Sprintf("rows%d-%s-gate_%s-ib%d", p.rows, p.second, p.gate, p.ib)
+	if p.first != "" {
+		n += "-first_" + strings.ReplaceAll(p.first, " ", "") + fmt.Sprintf("-tok%d", p.tokens)
+	}
+	return n
 }
 
 type c07batch struct {
@@ -66,11 +78,28 @@ func c07Root(p c07p) func() {
 			}
 			return b
 		}
-		A, B := mk("A", 1), mk("B", 1)
-		if p.second == "E+Flush" {
-			B = mk("B", 0)
+		// the callers' scripts
+		first := p.first
+		if first == "" {
+			first = "A"
 		}
-		batches := []*c07batch{A, B}
+		second := map[string]string{"B+Flush": "B F", "Flush": "F", "B": "B", "E+Flush": "E F", "": ""}[p.second]
+		var batches []*c07batch
+		byName := map[string]*c07batch{}
+		for _, sc := range []string{first, second} {
+			for _, op := range strings.Fields(sc) {
+				switch op {
+				case "F":
+				case "E":
+					b := mk(fmt.Sprintf("E%d", len(batches)), 0)
+					batches = append(batches, b)
+				default:
+					b := mk(op, 1)
+					batches = append(batches, b)
+					byName[op] = b
+				}
+			}
+		}
 		rowsOf := func(b *c07batch) []map[string]any {
 			rows := []map[string]any{}
 			for _, id := range b.ids {
@@ -137,27 +166,54 @@ func c07Root(p c07p) func() {
 			go receiver(b)
 			return true
 		}
-		wg.Add(2)
-		go func() { defer wg.Done(); ingest(A) }()
-		go func() {
-			defer wg.Done()
-			if p.second != "Flush" {
-				ingest(B)
-			}
-			if p.second != "B" {
-				vapi.Log("call Flush")
-				err := eng.Flush(ctx)
-				if err == nil {
-					vapi.Log("ret Flush ok")
-					barrier("Flush", "call Flush")
-				} else {
-					vapi.Log("ret Flush err")
+		nextEmpty := 0
+		var emu sync.Mutex
+		takeEmpty := func() *c07batch {
+			emu.Lock()
+			defer emu.Unlock()
+			for ; nextEmpty < len(batches); nextEmpty++ {
+				if !batches[nextEmpty].nonEmpty {
+					nextEmpty++
+					return batches[nextEmpty-1]
 				}
 			}
-		}()
+			return nil
+		}
+		runScript := func(who int, sc string) {
+			defer wg.Done()
+			nf := 0
+			for _, op := range strings.Fields(sc) {
+				switch op {
+				case "F":
+					nf++
+					fl := fmt.Sprintf("Flush%d.%d", who, nf)
+					vapi.Log("call %s", fl)
+					err := eng.Flush(ctx)
+					if err == nil {
+						vapi.Log("ret %s ok", fl)
+						barrier(fl, "call "+fl)
+					} else {
+						vapi.Log("ret %s err", fl)
+					}
+				case "E":
+					ingest(takeEmpty())
+				default:
+					ingest(byName[op])
+				}
+			}
+		}
+		wg.Add(2)
+		go runScript(1, first)
+		go runScript(2, second)
 		if p.gate != "" {
 			wg.Add(1)
-			go func() { defer wg.Done(); close(gate) }()
+			go func() {
+				defer wg.Done()
+				for i := 0; i < p.tokens; i++ {
+					gate <- struct{}{}
+				}
+				close(gate)
+			}()
 		}
 		// everything still buffered is flushed by Stop so that the receivers finish
 		stopped := make(chan struct{})
@@ -176,18 +232,36 @@ func init() {
 		var ps []c07p
 		if tier == "quick" {
 			ps = []c07p{
-				{1, "B+Flush", "CreateFile", 1},
-				{2, "B+Flush", "", 2},
-				{0, "Flush", "Update", 1},
-				{1, "E+Flush", "", 1},
-				{2, "B", "Close", 1},
+				{rows: 1, second: "B+Flush", gate: "CreateFile", ib: 1},
+				{rows: 2, second: "B+Flush", ib: 2},
+				{rows: 0, second: "Flush", gate: "Update", ib: 1},
+				{rows: 1, second: "E+Flush", ib: 1},
+				{rows: 2, second: "B", gate: "Close", ib: 1},
+				// multi-step histories of one caller around a store that admits one held call at a time
+				{rows: 1, first: "A F B F", gate: "CreateFile", tokens: 2, ib: 1},
 			}
 		} else {
 			for _, rows := range []int{1, 2, 0} {
 				for _, second := range []string{"B+Flush", "Flush", "B", "E+Flush"} {
 					for _, gate := range []string{"", "CreateFile", "Update", "Close"} {
 						for _, ib := range []int{1, 2} {
-							ps = append(ps, c07p{rows, second, gate, ib})
+							ps = append(ps, c07p{rows: rows, second: second, gate: gate, ib: ib})
+						}
+					}
+				}
+			}
+			ps = append(ps, c07p{rows: 1, first: "A F", second: "B+Flush", gate: "CreateFile", tokens: 2, ib: 2},
+				c07p{rows: 2, first: "A F B C F", gate: "Update", tokens: 2, ib: 1})
+			for _, rows := range []int{1, 2} {
+				for _, first := range []string{"A F B F", "A F F B F", "A B F C F", "A F B C F", "F A F B F", "A E F B F"} {
+					for _, second := range []string{"", "Flush", "B+Flush"} {
+						if second == "B+Flush" && strings.Contains(first, "B") {
+							first = strings.ReplaceAll(strings.ReplaceAll(first, "C", "D"), "B", "C")
+						}
+						for _, gate := range []string{"CreateFile", "Update"} {
+							for _, tokens := range []int{1, 2, 3} {
+								ps = append(ps, c07p{rows: rows, second: second, gate: gate, ib: 1, first: first, tokens: tokens})
+							}
 						}
 					}
 				}
